@@ -172,6 +172,10 @@ pub struct E2eCase {
     /// which table entries have a listener
     pub live: Vec<bool>,
     pub bound: (bool, bool),
+    /// bind the wildcard address (0.0.0.0 / ::) instead of the loopback address of that family: it
+    /// is a bound local address like any other
+    #[serde(default)]
+    pub wildcard: (bool, bool),
 }
 
 /// candidate loopback addresses: three IPv4, one IPv6, two IPv4-mapped IPv6
@@ -262,8 +266,8 @@ impl Engine for E2eEngine {
             cfg.happy_eyeballs_timeout = Some(std::time::Duration::from_secs(4));
             cfg.happy_eyeballs_concurrency = Some(1);
             cfg.connect_timeout = Some(std::time::Duration::from_secs(2));
-            cfg.local_address_ipv4 = case.bound.0.then_some(Ipv4Addr::LOCALHOST);
-            cfg.local_address_ipv6 = case.bound.1.then_some(Ipv6Addr::LOCALHOST);
+            cfg.local_address_ipv4 = case.bound.0.then_some(if case.wildcard.0 { Ipv4Addr::UNSPECIFIED } else { Ipv4Addr::LOCALHOST });
+            cfg.local_address_ipv6 = case.bound.1.then_some(if case.wildcard.1 { Ipv6Addr::UNSPECIFIED } else { Ipv6Addr::LOCALHOST });
             let transport: TcpTransport<ListResolver, TcpStream> =
                 TcpTransport::builder().with_config(cfg).with_resolver(ListResolver(answer.clone())).build();
             let uri: http::Uri = format!("http://verif.test:{port}/").parse().unwrap();
@@ -284,7 +288,8 @@ impl Engine for E2eEngine {
             // versa; such destinations count as dead for the expectation
             let reachable = |a: &SocketAddr| -> bool {
                 match a.ip() {
-                    IpAddr::V6(v6) if v6.to_ipv4_mapped().is_some() => !case.bound.1,
+                    // (a socket bound to the IPv6 wildcard is dual-stack and does reach them)
+                    IpAddr::V6(v6) if v6.to_ipv4_mapped().is_some() => !case.bound.1 || case.wildcard.1,
                     _ => true,
                 }
             };
@@ -339,6 +344,7 @@ pub fn e2e_strategy() -> impl proptest::strategy::Strategy<Value = E2eCase> {
         proptest::collection::vec(0u8..6, 1..7),
         proptest::collection::vec(any::<bool>(), 6),
         (any::<bool>(), any::<bool>()),
+        (any::<bool>(), any::<bool>()),
     )
-        .prop_map(|(addrs, live, bound)| E2eCase { addrs, live, bound })
+        .prop_map(|(addrs, live, bound, wildcard)| E2eCase { addrs, live, bound, wildcard })
 }
